@@ -26,6 +26,9 @@ var verifC08Src = []string{
 	"update t set b = (select a from t)",
 	"update t set a = 100 / b, b = 5",
 	"delete from t where a in (select 100 / b from t)",
+	// earlier rows take their values straight from a variable and from another table's cell
+	"insert into t values (1, @v, (select c from u)), (4, 5, 10 / @z), (6, 7, 8)",
+	"replace into t (id, a, b) using (id) values (1, @v, (select c from u)), (2, 3, 100 / @z)",
 }
 
 var verifC08Stmts []parser.Statement
@@ -47,6 +50,7 @@ func VerifC08FailingStatement() {
 	scope := proc.ReferenceScope
 	const n = 3
 	rows := make([][]value.Primary, n)
+	var bvals [n]int64
 	for i := 0; i < n; i++ {
 		var a value.Primary
 		// divisors range over [-3, 3]: symbolic 64-bit division is out of the solver's reach, and
@@ -62,6 +66,7 @@ func VerifC08FailingStatement() {
 		bv := verifInt64("b")
 		verifAssume(bv >= -3)
 		verifAssume(bv <= 3)
+		bvals[i] = bv
 		rows[i] = []value.Primary{value.NewInteger(int64(i)), a, value.NewInteger(bv)}
 	}
 	before := verifTempTable(scope, "t", []string{"id", "a", "b"}, rows)
@@ -75,6 +80,13 @@ func VerifC08FailingStatement() {
 	verifAssume(zv >= -3)
 	verifAssume(zv <= 3)
 	verifVar(scope, "z", value.NewInteger(zv))
+	vv, uc := verifInt64("v"), verifInt64("uc")
+	verifAssume(vv >= -3)
+	verifAssume(vv <= 3)
+	verifAssume(uc >= -3)
+	verifAssume(uc <= 3)
+	verifVar(scope, "v", value.NewInteger(vv))
+	other := verifTempTable(scope, "u", []string{"c"}, [][]value.Primary{{value.NewInteger(uc)}})
 	si := verifChoice("statement", len(verifC08Src))
 	verifMapOrder(true)
 	_, err := proc.Execute(ContextForStoringResults(verifCtx()), []parser.Statement{verifC08Stmts[si]})
@@ -97,6 +109,18 @@ func VerifC08FailingStatement() {
 		if iv, ok := beforeCells[i][2].(*value.Integer); ok {
 			_ = iv
 		}
+	}
+	// values the statement only read must not have been handed back to the value pools: reissue
+	// pooled objects and look again
+	verifC14Churn()
+	gv, gerr := scope.GetVariable(parser.Variable{Name: "v"})
+	gi, gok := gv.(*value.Integer)
+	verifAssert("a variable read by the failed statement keeps its value", gerr == nil && gok && gi.Raw() == vv)
+	oc, ook := verifStored(scope, "U").RecordSet[0][0][0].(*value.Integer)
+	verifAssert("another table read by the failed statement keeps its cell", ook && oc.Raw() == uc && verifStored(scope, "U") == other)
+	for i := 0; i < n && i < after.RecordLen(); i++ {
+		bi, ok := after.RecordSet[i][2][0].(*value.Integer)
+		verifAssert("cell payload unchanged after pool churn", ok && bi.Raw() == bvals[i])
 	}
 	verifAssert("nothing scheduled for COMMIT", tx.UncommittedViews.IsEmpty())
 	verifAssert("no affected rows reported", tx.AffectedRows == 0)
